@@ -79,7 +79,67 @@ func genSync() {
 	}
 	g.line("")
 	g.line("Definition sync_programs : list (list ev) := [%s].", strings.Join(names, "; "))
+	g.line("")
+	genWatcherCalls(g)
 	g.write("SyncProgs.v")
+}
+
+// genWatcherCalls: every call of the reload callback `action` in pkg/watcher/watcher.go, with the function it
+// sits in and whether it runs in a goroutine of its own (inside a go statement or a function literal) instead
+// of the watcher's event loop.
+func genWatcherCalls(g *gen) {
+	const rel = "pkg/watcher/watcher.go"
+	f := parse(rel)
+	if f == nil {
+		return
+	}
+	var items []string
+	for _, d := range f.Decls {
+		fd, ok := d.(*ast.FuncDecl)
+		if !ok || fd.Body == nil {
+			continue
+		}
+		hasParam := false
+		for _, p := range fd.Type.Params.List {
+			for _, n := range p.Names {
+				if n.Name == "action" {
+					hasParam = true
+				}
+			}
+		}
+		if !hasParam {
+			continue
+		}
+		var walk func(n ast.Node, async bool)
+		walk = func(n ast.Node, async bool) {
+			ast.Inspect(n, func(x ast.Node) bool {
+				switch v := x.(type) {
+				case *ast.GoStmt:
+					walk(v.Call, true)
+					return false
+				case *ast.FuncLit:
+					if x != n {
+						// a function literal runs whenever it is called: in this file only the event loop's own
+						// literal (inside WatchFileForUpdates) is expected, and it does not call action directly
+						walk(v.Body, true)
+						return false
+					}
+				case *ast.CallExpr:
+					if id, ok := v.Fun.(*ast.Ident); ok && id.Name == "action" && len(v.Args) == 0 {
+						items = append(items, fmt.Sprintf("(\"%s\"%%string, %v)", fd.Name.Name, async))
+					}
+				}
+				return true
+			})
+		}
+		walk(fd.Body, false)
+	}
+	if len(items) == 0 {
+		fail("%s: no call of the reload callback found", rel)
+	}
+	g.line("(* %s: calls of the reload callback: (enclosing function, runs outside the event loop) *)", rel)
+	g.line("From Coq Require Import String.")
+	g.line("Definition watcher_action_calls : list (string * bool) := [%s]%%list.", strings.Join(items, "; "))
 }
 
 func structFields(f *ast.File, typ string) []string {
